@@ -175,17 +175,79 @@ theorem specific_both_described (v : Variant) (bh eh : Nat) (bm em : Int) (lpm r
     · have := fmtOff_hms (hour24 eh rpm) (minOf em).toNat 0 1 hh2 (by omega) (by omega)
       rw [← this]; congr 1; omega
 
-/-- **Every result of `parse_specific_time` whose ends are at most a day apart is a consistent triple** — whatever
-branch of the am / pm logic produced the two offsets: the TIMEX points are the hour[:minute] of the resolved start / end and
-the `PT…` text is their distance. (Hypotheses on the offsets: whole minutes, and a side without a minute capture is on the
-hour — both hold for what `specificCore` computes, whose shifts are multiples of twelve hours.) -/
+/-- **Only the right side carries pm** ("3:30 to 4 pm", "11 to 3:15 pm"), for all hours 1..11 and minutes: the end is
+the stated time pm; the begin is read as pm too when the stated begin is not after the stated end, otherwise it stays in the
+morning — so the range never exceeds twelve hours and never runs backwards. -/
+theorem specific_right_pm_rule (v : Variant) (bh eh : Nat) (bm em : Int)
+    (hb1 : 1 ≤ bh) (hb : bh ≤ 11) (he1 : 1 ≤ eh) (he : eh ≤ 11) (hbm : -1 ≤ bm ∧ bm ≤ 59) (hem : -1 ≤ em ∧ em ≤ 59) :
+    ∃ t, specificCore v bh eh bm em [] (desc true) =
+      .ok t [] [] ((bh : Int) * 3600 + minOf bm * 60 +
+          (if (bh : Int) * 3600 + minOf bm * 60 ≤ (eh : Int) * 3600 + minOf em * 60 then 43200 else 0))
+        ((eh : Int) * 3600 + minOf em * 60 + 43200) := by
+  have g : ¬(bh > 23 ∨ eh > 23 ∨ (if bm > 0 then bm else 0) > 59 ∨ (if em > 0 then em else 0) > 59) := by
+    rintro (h | h | h | h)
+    · omega
+    · omega
+    · split at h <;> omega
+    · split at h <;> omega
+  unfold specificCore
+  simp only [g, if_false]
+  simp [desc, specificShift, minOf, H12, H24]
+  have hx : 0 ≤ (if 0 < bm then bm else 0) ∧ (if 0 < bm then bm else 0) ≤ 59 := by split <;> omega
+  have hy : 0 ≤ (if 0 < em then em else 0) ∧ (if 0 < em then em else 0) ≤ 59 := by split <;> omega
+  generalize (if 0 < bm then bm else 0) = x at hx ⊢
+  generalize (if 0 < em then em else 0) = y at hy ⊢
+  have hbh : bh < 12 := by omega
+  have heh : eh < 12 := by omega
+  simp only [hbh, heh, if_true]
+  refine ⟨?_, ?_⟩ <;> (repeat' split) <;> omega
+
+/-- **Every successful `parse_specific_time` computation is a consistent triple (C10)** — for all hours, minutes and
+descriptions, whichever branch of the am / pm logic runs (both sides described, one side, none): begin ≤ end (the end rolled
+to the next day when needed), less than a day apart, whole minutes, the TIMEX is `(Tb,Te,PT…)` with the hour[:minute] of the
+resolved start / end and the `PT…` text is their distance (`RTV.WF.tripleOK`).  (`specificShift_spec`: every branch moves
+each end by a whole number of half days and leaves the two less than a day apart.) -/
 theorem specific_triple_consistent (v : Variant) (bh eh : Nat) (bm em : Int) (l r t c m : Str) (b e : Int)
-    (h : specificCore v bh eh bm em l r = .ok t c m b e)
-    (hb : b % 60 = 0) (he : e % 60 = 0) (h1 : b ≤ e) (h2 : e - b < 86400)
-    (zb : bm < 0 → b % 3600 = 0) (ze : em < 0 → e % 3600 = 0) :
+    (h : specificCore v bh eh bm em l r = .ok t c m b e) :
+    b ≤ e ∧ e - b < 86400 ∧ b % 60 = 0 ∧ e % 60 = 0 ∧ t = specTimex b e bm em ∧
     tripleOK t (some (fmtOff b)) (some (fmtOff e)) = true := by
-  rw [(specificCore_shape _ _ _ _ _ _ _ _ _ _ _ _ h).1]
-  exact specTimex_triple b e bm em hb he h1 h2 zb ze
+  have sh := specificCore_shape _ _ _ _ _ _ _ _ _ _ _ _ h
+  unfold specificCore at h
+  simp only at h
+  by_cases g : (bh > 23 ∨ eh > 23 ∨ (if bm > 0 then bm else 0) > 59 ∨ (if em > 0 then em else 0) > 59)
+  · rw [if_pos g] at h; cases h
+  · rw [if_neg g] at h
+    have gb : bh ≤ 23 := by omega
+    have ge : eh ≤ 23 := by omega
+    have gx : 0 ≤ (if bm > 0 then bm else 0) ∧ (if bm > 0 then bm else 0) ≤ 59 ∧ (bm < 0 → (if bm > 0 then bm else 0) = 0) := by
+      refine ⟨by split <;> omega, by omega, by intro; split <;> omega⟩
+    have gy : 0 ≤ (if em > 0 then em else 0) ∧ (if em > 0 then em else 0) ≤ 59 ∧ (em < 0 → (if em > 0 then em else 0) = 0) := by
+      refine ⟨by split <;> omega, by omega, by intro; split <;> omega⟩
+    generalize (if bm > 0 then bm else 0) = x at h gx
+    generalize (if em > 0 then em else 0) = y at h gy
+    have hl : ¬((!l.isEmpty && decide (l.head? = some 97)) = true ∧ (!l.isEmpty && decide (l.head? = some 112)) = true) := by
+      cases l <;> simp; intro h1 h2; omega
+    have hr : ¬((!r.isEmpty && decide (r.head? = some 97)) = true ∧ (!r.isEmpty && decide (r.head? = some 112)) = true) := by
+      cases r <;> simp; intro h1 h2; omega
+    have sp := specificShift_spec v bh eh gb ge _ _ _ _ hl hr ((bh : Int) * 3600 + x * 60) ((eh : Int) * 3600 + y * 60)
+      (by omega) (by omega)
+    generalize specificShift v bh eh _ _ _ _ _ _ = s at h sp
+    obtain ⟨b1, e1, amb⟩ := s
+    simp only [Res.ok.injEq] at h
+    obtain ⟨_, _, _, h4, h5⟩ := h
+    simp only at sp
+    have hbe : b ≤ e ∧ e - b < 86400 ∧ b % 60 = 0 ∧ e % 60 = 0 ∧ (bm < 0 → b % 3600 = 0) ∧ (em < 0 → e % 3600 = 0) := by
+      subst h4 h5; unfold H24
+      refine ⟨?_, ?_, ?_, ?_, ?_, ?_⟩
+      · split <;> omega
+      · split <;> omega
+      · omega
+      · split <;> omega
+      · intro hh; have := gx.2.2 hh; omega
+      · intro hh; have := gy.2.2 hh; split <;> omega
+    refine ⟨hbe.1, hbe.2.1, hbe.2.2.1, hbe.2.2.2.1, sh.1, ?_⟩
+    rw [sh.1]
+    exact specTimex_triple b e bm em hbe.2.2.1 hbe.2.2.2.1 hbe.1 hbe.2.1 hbe.2.2.2.2.1 hbe.2.2.2.2.2
 
 /-- **Witness (finding `timerange-12am-end`)**: "from 10pm to 12am" — as found the end stays at 12:00 (`(T22,T12,PT14H)`,
 22:00 → 12:00 next day) because the right-hand test is `end_hour > 12` while the left-hand one is `>= 12`; with
